@@ -260,12 +260,17 @@ def gen_opcase(rng, op_pool, dtypes, nmax=40, mask_kinds=None, big_p=0.0, key_ki
     return case
 
 
-def gen_times(rng, n, unit="ns", start=None):
+def gen_times(rng, n, unit="ns", start=None, fine=False):
     """non-decreasing timestamps (ns since epoch by default, after 1970), irregular with repeats."""
     start = 1_600_000_000 if start is None else start
+    per = 10**9 // gen.UNIT_NS[unit]
+    if fine:
+        # tick data: irregular steps of a few hundred units on top of a present-day epoch value (not multiples of 256)
+        steps = rng.integers(0, 1900, size=n) * rng.choice([0, 1, 1, 1], size=n)
+        base = int(start) * per + int(rng.integers(1, 255))
+        return {"unit": unit, "vals": [int(base + x) for x in np.cumsum(steps)], "container": "np", "fine": True}
     gaps = rng.choice([0, 1, 1, 2, 5, 30, 3600], size=n) * rng.choice([1, 1, 1, 0.5], size=n)
     secs = start + np.cumsum(gaps)
-    per = 10**9 // gen.UNIT_NS[unit]
     return {"unit": unit, "vals": [int(round(s * per)) for s in secs], "container": "np"}
 
 
